@@ -62,20 +62,12 @@ theorem dead_frozen (fl : Flags) (F : Oracle) (s : Sys) (op : Op) (hd : s.w.dead
 /-! ## structure: recovery succeeds, the manifest references only complete objects -/
 
 theorem storeInv_step (fl : Flags) (F : Oracle) (s : Sys) (op : Op) (h : StoreInv s.w.store) :
-    StoreInv (stepWith fl F s op).w.store := by
-  cases op with
-  | push d => exact h
-  | flush sz =>
-    have := (flush_spec fl.restoreBuffer F sz s.w s.p h).1
-    simp only [stepWith]
-    split <;> rename_i heq <;> rw [heq] at this <;> exact this
-  | compact cfg sz => exact (compact_spec fl.compact F cfg sz s.w h).1
+    StoreInv (stepWith fl F s op).w.store := storeInv_stepWith fl F s op h
 
-theorem storeInv_empty : StoreInv ([] : Store) := Or.inl rfl
+theorem storeInv_empty : StoreInv ([] : Store) := storeInv_nil
 
 theorem storeInv_run (fl : Flags) (F : Oracle) (rid : Nat) (ops : List Op) :
-    StoreInv (runWith fl F (Sys.init [] rid) ops).w.store :=
-  TraceInv.run_inv (stepWith fl F) (fun s => StoreInv s.w.store) (storeInv_step fl F) _ storeInv_empty ops
+    StoreInv (runWith fl F (Sys.init [] rid) ops).w.store := storeInv_runWith fl F rid ops
 
 /-- **crash_consistent, structural part** — every code variant (pinned or repaired), every
     workload of push / flush / compact, every fault oracle hence every crash point: `recover`
